@@ -5,15 +5,15 @@ CONSTANTS
   MiB = 8
   OverMul = 2
   OverAdd = 0
-  Dev <- DevJoin
+  Dev <- DevNone
   Shared = TRUE
   RealMul = 2
   RealAdd = 0
   Bug = "none"
-  KeyVals <- KVjoin
-  Bodies <- BodiesTwo
+  KeyVals <- KV2
+  Bodies <- BodiesSmall
   Steps = {500, 1000}
-  MaxNow = 500
+  MaxNow = 2500
   MaxTx = 3
   NParts = 2
 SPECIFICATION ISpec
